@@ -337,6 +337,8 @@ func (self Value) getByPath(pathes ...Path) (Value, []int) {
 					return errValue(meta.ErrRead, "GetByPath: read field length failed.", err), address
 				}
 				messageLen += Len
+				// nothing below this message may be read past its end (p is a private cursor)
+				p.Buf = p.Buf[:p.Read+Len]
 			}
 
 			fd := desc.Message().ByNumber(id)
@@ -361,6 +363,8 @@ func (self Value) getByPath(pathes ...Path) (Value, []int) {
 					return errValue(meta.ErrRead, "GetByPath: read field length failed.", err), address
 				}
 				messageLen += Len
+				// nothing below this message may be read past its end (p is a private cursor)
+				p.Buf = p.Buf[:p.Read+Len]
 			}
 
 			fd := desc.Message().ByName(name)
